@@ -1,7 +1,171 @@
-/-  C01/Driver — line protocol front end (core-only).  Placeholder until the property is built. -/
+/-
+  C01/Driver — line protocol front end (core-only).
+    trace <fuel> <vars|-> <program>    reply: model/spec = t:[v,…];k:normal | k:throw:<v> | k:abrupt:<kind>
+    value <fuel> <vars|-> <program>    reply: model/spec = completion value (or `throw`), dev = completionValue?
+  Program syntax (no spaces): name(arg,arg,…) – see `stmtOf` / `exprOf`.
+-/
 import OttoVerif.Base.Proto
+import OttoVerif.C01.Model
+import OttoVerif.C01.Spec
+import OttoVerif.C01.Refine
+import OttoVerif.C01.Concrete
 namespace OttoVerif.C01.Driver
+open OttoVerif.C01
 
-def handle (_ws : List String) : String := "bad-op"
+inductive SX where
+  | node (name : String) (args : List SX)
+deriving Inhabited
+
+partial def parseSX (cs : List Char) : Option (SX × List Char) :=
+  let name := cs.takeWhile (fun c => c ≠ '(' ∧ c ≠ ')' ∧ c ≠ ',')
+  let rest := cs.drop name.length
+  match rest with
+  | '(' :: r =>
+    let rec args (r : List Char) (acc : List SX) : Option (List SX × List Char) :=
+      match r with
+      | ')' :: r' => some (acc.reverse, r')
+      | _ =>
+        match parseSX r with
+        | none => none
+        | some (x, r1) =>
+          match r1 with
+          | ',' :: r2 => args r2 (x :: acc)
+          | ')' :: r2 => some ((x :: acc).reverse, r2)
+          | _ => none
+    match args r [] with
+    | some (as, r') => some (.node (String.ofList name) as, r')
+    | none => none
+  | _ => some (.node (String.ofList name) [], rest)
+
+def atomVal (a : String) : Option Val :=
+  match a.toList with
+  | ['u'] => some .undef
+  | ['t'] => some (.bool true)
+  | ['f'] => some (.bool false)
+  | 'n' :: r => (String.ofList r).toInt?.map .num
+  | 's' :: r => some (.str (String.ofList r))
+  | _ => none
+
+def label (a : String) : String := if a = "_" then "" else a
+
+partial def exprOf : SX → Option Expr
+  | .node "asg" [.node x [], e] => do pure (.assign x (← exprOf e))
+  | .node "add" [a, b] => do pure (.add (← exprOf a) (← exprOf b))
+  | .node "sub" [a, b] => do pure (.sub (← exprOf a) (← exprOf b))
+  | .node "lt" [a, b] => do pure (.lt (← exprOf a) (← exprOf b))
+  | .node "seq" [a, b] => do pure (.seq (← exprOf a) (← exprOf b))
+  | .node "not" [a] => do pure (.not (← exprOf a))
+  | .node "log" [a] => do pure (.log (← exprOf a))
+  | .node "typeof" [.node x []] => some (.typeofVar x)
+  | .node "var" [.node x []] => some (.var x)
+  | .node a [] => (atomVal a).map .lit
+  | _ => none
+
+def oexprOf : SX → Option (Option Expr)
+  | .node "_" [] => some none
+  | x => (exprOf x).map some
+
+mutual
+partial def stmtOf : SX → Option Stmt
+  | .node "E" [] => some .empty
+  | .node "X" [e] => do pure (.expr (← exprOf e))
+  | .node "V" es => do pure (.varS (← es.mapM exprOf))
+  | .node "B" ss => do pure (.block (← stmtsOf ss))
+  | .node "I" [c, t, e] => do pure (.ifS (← exprOf c) (← stmtOf t) (← stmtOf e))
+  | .node "W" [c, b] => do pure (.whileS (← exprOf c) (← stmtOf b))
+  | .node "D" [b, c] => do pure (.doWhile (← stmtOf b) (← exprOf c))
+  | .node "F" [i, t, u, b] => do pure (.forS (← oexprOf i) (← oexprOf t) (← oexprOf u) (← stmtOf b))
+  | .node "L" [.node l [], s] => do pure (.labelled l (← stmtOf s))
+  | .node "K" [.node l []] => some (.brk (label l))
+  | .node "C" [.node l []] => some (.cont (label l))
+  | .node "R" [e] => do pure (.ret (← oexprOf e))
+  | .node "T" [e] => do pure (.throwS (← exprOf e))
+  | .node "Y" [.node "B" b, .node hc [], .node p [], .node "B" c, .node hf [], .node "B" f] => do
+      pure (.tryS (← stmtsOf b) (hc = "1") p (← stmtsOf c) (hf = "1") (← stmtsOf f))
+  | .node "S" (d :: cs) => do pure (.switchS (← exprOf d) (← casesOf cs))
+  | _ => none
+partial def stmtsOf : List SX → Option Stmts
+  | [] => some .nil
+  | x :: xs => do pure (.cons (← stmtOf x) (← stmtsOf xs))
+partial def casesOf : List SX → Option Cases
+  | [] => some .nil
+  | .node "c" (t :: body) :: xs => do pure (.cons (← oexprOf t) (← stmtsOf body) (← casesOf xs))
+  | _ => none
+end
+
+def valTok : Val → String
+  | .undef => "u" | .null => "null"
+  | .bool b => if b then "t" else "f"
+  | .num n => "n" ++ toString n
+  | .str s => "s" ++ s
+  | .err n => "err:" ++ n
+
+def traceTok (t : List Val) : String := "t:[" ++ ",".intercalate (t.map valTok) ++ "]"
+
+def modelTrace (r : MR CSt) : String :=
+  match r with
+  | .fuel => "fuel"
+  | .throw v _ σ => traceTok σ.trace ++ ";k:throw:" ++ valTok v
+  | .ok o L σ =>
+    let lab := if L.isEmpty then "" else ";labels-not-at-rest"
+    match o with
+    | .brk t => traceTok σ.trace ++ ";k:abrupt:break:" ++ t ++ lab
+    | .cont t => traceTok σ.trace ++ ";k:abrupt:continue:" ++ t ++ lab
+    | .ret v => traceTok σ.trace ++ ";k:abrupt:return:" ++ valTok v ++ lab
+    | _ => traceTok σ.trace ++ ";k:normal" ++ lab
+
+def specTrace (r : SR CSt) : String :=
+  match r with
+  | .fuel => "fuel"
+  | .throw v σ => traceTok σ.trace ++ ";k:throw:" ++ valTok v
+  | .ok c σ =>
+    match c.t with
+    | .brk t => traceTok σ.trace ++ ";k:abrupt:break:" ++ t
+    | .cont t => traceTok σ.trace ++ ";k:abrupt:continue:" ++ t
+    | .ret => traceTok σ.trace ++ ";k:abrupt:return:" ++ valTok (c.v.getD .undef)
+    | .normal => traceTok σ.trace ++ ";k:normal"
+
+def modelValue (r : MR CSt) : String :=
+  match r with
+  | .fuel => "fuel"
+  | .throw _ _ _ => "throw"
+  | .ok (.val v) _ _ => valTok v
+  | .ok .empty _ _ => "u"
+  | .ok _ _ _ => "abrupt"
+
+def specValue (r : SR CSt) : String :=
+  match r with
+  | .fuel => "fuel"
+  | .throw _ _ => "throw"
+  | .ok c _ => if c.t = .normal then valTok (c.v.getD .undef) else "abrupt"
+
+/-- the last statement of the program is an expression statement: the class for which the
+    completion-value theorem is proved; everything else is the `completionValue` region -/
+def lastIsExpr : Stmts → Bool
+  | .nil => false
+  | .cons (.expr _) .nil => true
+  | .cons _ .nil => false
+  | .cons _ ss => lastIsExpr ss
+
+def handle (ws : List String) : String :=
+  match ws with
+  | [kind, fuel, vars, prog] =>
+    match fuel.toNat?, parseSX prog.toList with
+    | some n, some (.node "P" ss, []) =>
+      match stmtsOf ss with
+      | none => "bad-op"
+      | some p =>
+        let vs := if vars = "-" then [] else vars.splitOn ","
+        let σ := initState vs
+        if !wlList [] p then "not-wl not-wl -"
+        else
+        let m := ottoProgram concreteSem n p σ
+        let s := specProgram concreteSem n p σ
+        if kind = "trace" then modelTrace m ++ " " ++ specTrace s ++ " -"
+        else if kind = "value" then
+          modelValue m ++ " " ++ specValue s ++ " " ++ (if lastIsExpr p then "-" else "completionValue")
+        else "bad-op"
+    | _, _ => "bad-op"
+  | _ => "bad-op"
 
 end OttoVerif.C01.Driver
